@@ -33,7 +33,7 @@ import (
 
 var attackKinds = []string{"equivocate", "forged-rc", "early-prop", "solo", "ignore-lock", "stale-rc"}
 
-// solo-netfail is not in the rotation: the model has no failing publish, so it is run without the model
+// publish-error and solo-netfail are not in the rotation: the model has no failing publish, so it is run without the model
 
 func ofType(ms []*specqbft.SignedMessage, t specqbft.MessageType) []*specqbft.SignedMessage {
 	var out []*specqbft.SignedMessage
@@ -305,6 +305,93 @@ func attackOne(out *hx.Out, seed, c uint64, only string) {
 		b := s.all(s.honest, []*specqbft.SignedMessage{s.sign(ld(1), msg, W)})
 		b = s.all(s.honest, append(ofType(b, specqbft.PrepareMsgType), byzAll(specqbft.PrepareMsgType, 2, rootW)...))
 		s.all(s.honest, append(ofType(b, specqbft.CommitMsgType), byzAll(specqbft.CommitMsgType, 2, rootW)...))
+	case "publish-error":
+		// The commit of some correct operators goes out but its publish reports an error (partial publish).  One
+		// operator decides V with those commits; the others, who saw no commit quorum (and a few of them no prepare
+		// quorum), time out.  Whoever sent a commit for V is prepared for V, whatever its publish call returned: round 2
+		// must not decide anything but V.  Not in the rotation (the model has no failing publish): monitor only.
+		byzIDs = fill()
+		setup(byzIDs...)
+		if s.byz[ld(1)] {
+			return // keep the first round honest: the value everybody prepares is the honest leader's
+		}
+		var b []*specqbft.SignedMessage
+		for _, id := range s.honest {
+			b = append(b, s.nodes[id].start(uint64(5*int(id)+1))...)
+		}
+		props := ofType(b, specqbft.ProposalMsgType)
+		if len(props) != 1 {
+			return
+		}
+		root1 := props[0].Message.Root
+		b = s.all(s.honest, props)
+		// P: the correct operators that see the prepare quorum (q - f of them), X in P decides alone
+		perm := append([]spectypes.OperatorID{}, s.honest...)
+		for i := len(perm) - 1; i > 0; i-- {
+			j := r.Intn(i + 1)
+			perm[i], perm[j] = perm[j], perm[i]
+		}
+		P, Z := perm[:q-f], perm[q-f:]
+		X := P[0]
+		if ld(2) == X {
+			return
+		}
+		for _, id := range P[1:] {
+			s.nodes[id].net.failAfter = true
+		}
+		b = s.all(P, append(ofType(b, specqbft.PrepareMsgType), byzAll(specqbft.PrepareMsgType, 1, root1)...))
+		for _, id := range P[1:] {
+			s.nodes[id].net.failAfter = false
+		}
+		s.all([]spectypes.OperatorID{X}, append(ofType(b, specqbft.CommitMsgType), byzAll(specqbft.CommitMsgType, 1, root1)...))
+		var rest []spectypes.OperatorID
+		var rcs, rcsP []*specqbft.SignedMessage
+		inP := map[spectypes.OperatorID]bool{}
+		for _, id := range P {
+			inP[id] = true
+		}
+		for _, id := range s.honest {
+			if id != X {
+				rest = append(rest, id)
+				rc := ofType(s.nodes[id].timeout(), specqbft.RoundChangeMsgType)
+				if inP[id] {
+					rcsP = append(rcsP, rc...)
+				} else {
+					rcs = append(rcs, rc...)
+				}
+			}
+		}
+		rcs = append(rcs, byzAll(specqbft.RoundChangeMsgType, 2, [32]byte{})...)
+		desc = fmt.Sprintf("decides-alone=%d commit-publish-error=%v no-prepare-quorum=%v leader1=%d leader2=%d", X, P[1:], Z, ld(1), ld(2))
+		// the round changes of the operators that sent a commit arrive last (the leader justifies its proposal with the
+		// round change that completes the quorum)
+		b = s.all(rest, rcs)
+		b = append(b, s.all(rest, rcsP)...)
+		rcs = append(rcs, rcsP...)
+		if s.byz[ld(2)] {
+			// the Byzantine leader of round 2 proposes W if it can show a quorum of UNPREPARED round changes
+			var un []*specqbft.SignedMessage
+			for _, m := range rcs {
+				if !m.Message.RoundChangePrepared() {
+					un = append(un, m)
+				}
+			}
+			if len(un) < q {
+				break
+			}
+			msg := s.base(specqbft.ProposalMsgType, 2, rootW)
+			msg.RoundChangeJustification, _ = specqbft.MarshalJustifications(un[:q])
+			b = []*specqbft.SignedMessage{s.sign(ld(2), msg, W)}
+		} else {
+			b = ofType(b, specqbft.ProposalMsgType)
+		}
+		if len(b) == 0 {
+			break
+		}
+		root2 := b[0].Message.Root
+		b = s.all(rest, b)
+		b = s.all(rest, append(ofType(b, specqbft.PrepareMsgType), byzAll(specqbft.PrepareMsgType, 2, root2)...))
+		s.all(rest, append(ofType(b, specqbft.CommitMsgType), byzAll(specqbft.CommitMsgType, 2, root2)...))
 	case "solo-netfail":
 		// one correct operator accepts the round-r proposal, its timeout finds the network down (the publish of
 		// the round change fails), then a quorum of commits for round r+1 over the OLD root arrives
